@@ -150,6 +150,34 @@ def check_case(case, rec):
         if len(buf) != 4 + 44 * len(t) + 12 * 2 * t.bonds_count:
             rec.fail('encoder-size', f'{ts!r}: structure buffer {len(buf)} bytes, layout gives {4 + 44 * len(t) + 24 * t.bonds_count}')
             return
+    # the same object after edits in place (renumbering, an added atom): both paths must follow the molecule as it is now
+    t2 = t.copy()
+    t2.kekule()
+    for text, q in queries[-3:]:
+        list(q.get_mapping(t2))  # fill whatever the default path caches
+    nums = list(t2)
+    perm = nums[:]
+    rnd.shuffle(perm)
+    tmp = {n: 20000 + i for i, n in enumerate(nums)}
+    t2.remap(tmp)
+    t2.remap({tmp[n]: k for n, k in zip(nums, perm)})
+    for text, q in queries[-3:]:
+        if both(q, t2, rec, f'query {text!r} on {ts!r} after remap() in place', automorphism_filter=False) is None:
+            return
+    try:
+        host = next(n for n, a in t2.atoms() if a.atomic_number == 6 and a.implicit_hydrogens)
+        k = t2.add_atom('C')
+        t2.add_bond(host, k, 1)
+        t2.thiele()
+        if any(a.implicit_hydrogens is None for _, a in t2.atoms()):
+            raise ValueError  # undefined hydrogen counts are outside the compared domain (the compiled side stores them as 0)
+    except Exception:
+        pass
+    else:
+        for text, q in queries[-3:]:
+            if both(q, t2, rec, f'query {text!r} on {ts!r} after remap() and add_atom() in place', automorphism_filter=False) is None:
+                return
+    rec.count('in-place-edit sequences')
     rec.sample('pairs', dict(molecule=ts, queries=[x for x, _ in queries][:4]), cap=4)
 
 
@@ -220,6 +248,28 @@ def check_sweep(case, rec):
         if both(_q1(qa), m, rec, f'[{text}] on [{sym}]', automorphism_filter=False) is None:
             return
         rec.nt((z, 'generic', text))
+    # two-atom queries Cl-X and X-Cl (the element as root and as second query atom) against Cl-Y for Y = X and Y = other elements:
+    # a non-root query atom goes through a different test of the compiled matcher
+    from chython import MoleculeContainer as _MC, QueryContainer as _QC
+    others = [sym] + [Element.from_atomic_number(k).__name__ for k in ((z + 1 - 1) % 115 + 1, (z + 12 - 1) % 115 + 1, 78, 79, 57, 92, 6, 50)]
+    for ysym in dict.fromkeys(others):
+        mol2 = _MC()
+        mol2.add_atom('Cl', 1)
+        mol2.add_atom(Element.from_symbol(ysym)(), 2)
+        mol2.add_bond(1, 2, 1)
+        for order in ((1, 2), (2, 1)):
+            q2 = _QC('pair')
+            for n in order:
+                q2.add_atom(QueryElement.from_symbol('Cl')() if n == 1 else qcls(), n)
+            q2.add_bond(1, 2, 1)
+            rec.evaluations += 1
+            ref = both(q2, mol2, rec, f'Cl-[{sym}] query (atoms added in order {order}) on Cl[{ysym}]', automorphism_filter=False)
+            if ref is None:
+                return
+            if bool(ref) != (ysym == sym):
+                rec.fail('sweep-pair', f'Cl-[{sym}] query on Cl[{ysym}]: {"matched" if ref else "not matched"} by both paths')
+                return
+            rec.nt((z, 'pair', ysym, order))
     # ring closure onto / next to the element: five-membered ring X-C-C-C-C, query numbered from X and from the opposite carbon
     from chython import MoleculeContainer, QueryContainer
     ring = MoleculeContainer()
